@@ -213,7 +213,7 @@ def c03_scenario(kind="new type", fmt="stream"):
     D = _descs()
     a, a2, b = D["A"](n=1), D["A2"](s="x"), D["B"](s="b")
     pre = {"new type": [], "known type": [a], "same name registered": [a2], "nested, nothing known": [], "nested, holder known": [D["N"](r=None, rs=[])], "nested, inner known": [a, b],
-           "grouped, nothing known": [], "grouped, one member known": [a], "grouped, same names registered": [a, D["B"].__class__("c03/b", [("varint", "zz")])(zz=1)], "grouped twice, other members": [GroupedRecord("c03/grp", [D["G1"](n=1), b])], "same hash text, other name": [], "two writers": [], "frame": [], "write refused while packing, caller carries on": [], "names that differ only in '/' and '_'": [], "declared with byte strings": []}[kind]
+           "grouped, nothing known": [], "grouped, one member known": [a], "grouped, same names registered": [a, D["B"].__class__("c03/b", [("varint", "zz")])(zz=1)], "grouped twice, other members": [GroupedRecord("c03/grp", [D["G1"](n=1), b])], "same hash text, other name": [], "two writers": [], "frame": [], "write refused while packing, caller carries on": [], "names that differ only in '/' and '_'": [], "declared with byte strings": [], "a record type without fields": [], "grouped records of different shapes, flattened": []}[kind]
     if kind.startswith("nested"):
         rec = D["N"](r=a, rs=[a2, b])
     elif kind == "grouped twice, other members":
@@ -281,6 +281,33 @@ def c03_scenario(kind="new type", fmt="stream"):
         except Exception as e:
             bad = f"after a refused write, reading back raised {type(e).__name__}: {e}"
         return {"violates": bool(bad), "detail": bad}
+    if kind in ("a record type without fields", "grouped records of different shapes, flattened"):
+        from flow.record import RecordDescriptor
+
+        if kind.startswith("a record type"):
+            E = RecordDescriptor("c03/empty", [])
+            recs = [E(), a, D["N"](r=E(), rs=[]), E()]
+        else:
+            P, Q = RecordDescriptor("c03/p", [("varint", "n")]), RecordDescriptor("c03/q", [("string", "country")])
+            recs = [GroupedRecord("c03/grp", [P(n=1), b]), GroupedRecord("c03/grp", [b, P(n=2)]), GroupedRecord("c03/grp2", [Q(country="nl"), P(n=3)]), GroupedRecord("c03/grp", [P(n=4), b])]
+        want = [(r._desc.name, [tuple(f) for f in r._desc.get_field_tuples()]) for r in recs]
+        w = _Writer(fmt)
+        try:
+            for r in recs:
+                w.write(r)
+            data = w.data()
+            if fmt == "stream":
+                from flow.record.stream import RecordStreamReader
+
+                back = list(RecordStreamReader(io.BytesIO(data)))
+            else:
+                from flow.record.adapter.jsonfile import JsonfileReader
+
+                back = list(JsonfileReader(io.StringIO(data)))
+            got = [(r._desc.name, [tuple(f) for f in r._desc.get_field_tuples()]) for r in back]
+        except Exception as e:
+            return {"violates": True, "detail": f"writing / reading back raised {type(e).__name__}: {e}"}
+        return {"violates": got != want, "detail": f"read back with descriptors {got}, written with {want}"}
     if kind == "two writers":
         w1, w2 = _Writer(fmt), _Writer(fmt)
         for w in (w1, w2, w1, w2):
